@@ -657,6 +657,12 @@ func (s *levelsController) subcompact(it y.Iterator, kr keyRange, cd compactDef,
 	// Check overlap of the top level with the levels which are not being
 	// compacted in this compaction.
 	hasOverlap := s.checkOverlap(cd.allTables(), cd.nextLevel.level+1)
+	if cd.thisLevel.level == 0 && cd.nextLevel.level == 0 {
+		// An L0 to L0 compaction picks only some of the L0 tables. The tables it leaves out
+		// can hold older versions of the keys being compacted, so a delete marker must not be
+		// dropped as if no older version could exist anywhere else.
+		hasOverlap = true
+	}
 
 	// Pick a discard ts, so we can discard versions below this ts. We should
 	// never discard any versions starting from above this timestamp, because
